@@ -212,7 +212,9 @@ def _parse_result(ku, h, rc):
             h.status = 'undecided'
             h.detail = 'unwinding bound too small or unsupported construct: ' + '; '.join(fails[:3])
             return
-        if 'CBMC failed' in log or 'out of memory' in log.lower() or 'std::bad_alloc' in log:
+        m0 = re.search(r'\*\* (\d+) of (\d+) failed', log)
+        if 'CBMC failed' in log or 'out of memory' in log.lower() or 'std::bad_alloc' in log or (m0 and m0.group(1) == '0' and not fails):
+            # (a FAILED verdict without any failed check: the back end ended abnormally, typically the memory limit)
             h.status = 'undecided'
             h.detail = 'CBMC resource failure'
             return
